@@ -83,6 +83,10 @@ class SymMode(BaseMode):
             ctx.base = []
             ctx.assumptions = []
             ctx.known_pos = set()
+            ctx.known_pos_polys = []
+            ctx.pos_gens = set()
+            ctx.nonneg_gens = set()
+            ctx._possign_cache = {}
             return ctx
         self._declared = (names, extra)
         return core.set_ctx(names, extra)
@@ -93,10 +97,13 @@ class SymMode(BaseMode):
         z = ctx.zvars[name]
         if pos:
             ctx.base.append(z > 0)
+            ctx.pos_gens.add(name)
         if nonneg:
             ctx.base.append(z >= 0)
+            ctx.nonneg_gens.add(name)
         if lo is not None:
             ctx.base.append(z >= RV(Fraction(lo)))
+            (ctx.pos_gens if lo > 0 else ctx.nonneg_gens).add(name) if lo >= 0 else None
         if hi is not None:
             ctx.base.append(z <= RV(Fraction(hi)))
         return s
@@ -134,8 +141,7 @@ class SymMode(BaseMode):
     def mark_pos(self, x):
         """Harness knows x > 0 under its assumptions (it must have assumed it)."""
         if isinstance(x, SymReal):
-            x.pos = True
-            core.CTX.known_pos.add(x.q)
+            core.register_pos(x)
         return x
 
     # ---- obligations
@@ -182,13 +188,14 @@ class SymMode(BaseMode):
                 self.failures.append(Failure(label, self.key(label, key), detail or f"{a} vs {b}",
                                              self._values_from(core.ENG.witness())))
             return ok
-        if op == "eq":
-            # denominators are non-zero on this path (division forks on zero), so cross-multiplying is sound
-            claim = a.num_e * b.den_e == b.num_e * a.den_e
-        elif op == "le":
-            claim = a.e <= b.e
-        else:
-            claim = a.e < b.e
+        claim = core.cmp_zero(a.q - b.q, op)
+        if isinstance(claim, bool):
+            self.n_obl += 1
+            self.n_structural += 1
+            if not claim:
+                self.failures.append(Failure(label, self.key(label, key), detail or f"{op}: {str(a)[:100]} vs {str(b)[:100]}",
+                                             self._values_from(core.ENG.witness())))
+            return claim
         return self._check_sym(claim, label, key, detail or f"{op}: got {str(a)[:200]} want {str(b)[:200]}")
 
     def eq(self, got, want, label, key=None, detail=""):
@@ -199,6 +206,20 @@ class SymMode(BaseMode):
 
     def lt(self, a, b, label, key=None, detail=""):
         return self._rel(a, b, "lt", label, key, detail)
+
+    def tolerance_path(self):
+        """True if some tolerance test on this path succeeded without exact equality"""
+        return core.ENG is not None and core.ENG.tolerance_hits > 0
+
+    def approx(self, got, want, rel, label, key=None, detail=""):
+        """|got - want| <= rel * |want|   (banded obligation for tolerance paths)"""
+        got, want = core.lift(got), core.lift(want)
+        if got.q == want.q:
+            self.n_obl += 1
+            self.n_identity += 1
+            return True
+        d = abs(got - want)
+        return self.le(d, abs(want) * Fraction(rel), label, key, detail or f"approx rel={rel}")
 
     def _current_values(self):
         if core.ENG is None or core.CTX is None:
@@ -286,6 +307,17 @@ class ConcreteMode(BaseMode):
 
     def lt(self, a, b, label, key=None, detail=""):
         return self._rel(a, b, "lt", label, key, detail)
+
+    def tolerance_path(self):
+        return False
+
+    def approx(self, got, want, rel, label, key=None, detail=""):
+        self.n_obl += 1
+        a, b = self._num(got), self._num(want)
+        ok = abs(a - b) <= rel * abs(b) + self.ATOL
+        if not ok:
+            self.failures.append(Failure(label, self.key(label, key), detail or f"approx: got {a!r} want {b!r}", self.values, kind="concrete"))
+        return ok
 
     def _check_sym(self, claim, label, key, detail):
         raise HarnessError("SymBool in concrete mode")
